@@ -191,10 +191,12 @@ PROPS = {
    "Kernel-checked: the COMPOSED statement Fold-then-Unfold = identity on the direct path for scalars of every kind and width (bit-exact floats), []T, map[string]T under every iteration order, interface{} holding these, *T (PropsFu.C11 fold_unfold_scalar / _slice / _map / _iface_slice / _ptr, in the vocabulary of the op `fu`, no size bound); scalar round trip for all widths and values; the two halves for containers — fold side = documented rules on the universe goodT (C12 fold_agrees / fold_refuses: a type that cannot be handled is REFUSED, never a crash), unfold side = typed assignment for primitive slices / maps and the generic clause (C13), no panic on typed targets (C14) — and the codec legs (C01 round trips for all three formats); their composition over the remaining types by mirror + correspondence (`fu`, four paths) + oracle."
    " PropsFuStruct.C11 / PropsFuStruct2.C11: the composed statement for STRUCT types — dropped / plain / OMITEMPTY members of scalar type (fold_unfold_struct_prim, fold_unfold_struct_omit; with the Unfold-side hypotheses DERIVED from the compiler: compile_struct_prim, "
    "fold_unfold_struct_omit_total, unconditional instance fold_unfold_Om_total), NESTED and INLINED structs to any depth (fold_unfold_struct_nested, instance fold_unfold_Nest; type-level hypotheses #guard-checked), exact event lists (fold_struct_*_events). "
-   "PropsFuCbor.C11: the composed statement THROUGH THE CBOR PATH (Fold -> CBOR encoder -> bytes -> CBOR parser -> Unfolder) for scalars, []T, map[string]T, every value (fold_cbor_unfold_scalar / _slice / _map; side condition = lengths below 2^63, forced: huge_length_refused).",
+   "PropsFuCbor.C11: the composed statement THROUGH THE CBOR PATH (Fold -> CBOR encoder -> bytes -> CBOR parser -> Unfolder) for scalars, []T, map[string]T, every value (fold_cbor_unfold_scalar / _slice / _map; side condition = lengths below 2^63, forced: huge_length_refused). "
+   "PropsFuUbj.C11: THROUGH THE UBJSON PATH for scalars and []T (fold_ubj_unfold_scalar / _slice), every value the format can carry — uint64 above MaxInt64 comes back as a string (known finding KF-ubj-uint64-above-maxint64: side condition fitsV, kernel-evaluated counterexamples uint64_above_maxint64_refused / slice_one_big_element_refused). "
+   "PropsFuJson.C11: THROUGH THE JSON PATH for the float-free scalars (fold_json_unfold_int / _bool / _string: every integer kind over its whole range, strings modulo the encoder's UTF-8 sanitising, exact for valid UTF-8; every json.Visitor option setting).",
    tb=["models: SF/Gotype/Fold.lean, SF/Gotype/Unfold.lean, codec mirrors; composition SF/Ops/Fu.lean; translation between the two type universes SF/Gotype/Translate.lean"],
    assumptions=GOTYPE_ASSUME,
-   partial="the composed statement for struct members of container / pointer / interface type, nested containers, pointer chains, and the UBJSON / JSON paths is not proved as ONE theorem (the halves are: C12 fold = rules, C13 typed assignment, C14 no panic, C01 codec legs); the Unfold mirror trims tags with String.trimAscii, which keeps \\v and \\f where Go strips them (theorems carry TrimAgree; no menagerie tag contains them); decided there by the oracle on generated types x values x four paths; *float32 holding a signalling NaN comes back quieted (reading: any NaN of the same width)"),
+   partial="the composed statement for struct members of container / pointer / interface type, nested containers, pointer chains, containers through the JSON path and floats through JSON is not proved as ONE theorem (the halves are: C12 fold = rules, C13 typed assignment, C14 no panic, C01 codec legs); the Unfold mirror trims tags with String.trimAscii, which keeps \\v and \\f where Go strips them (theorems carry TrimAgree; no menagerie tag contains them); decided there by the oracle on generated types x values x four paths; *float32 holding a signalling NaN comes back quieted (reading: any NaN of the same width)"),
  "C12": P("DESIGN.md 7 C12",
    "Lean 4 proof (the Fold mirror agrees with the independent Rules specification on a decidable universe of types x all their values, both directions; tag parser = documented tag grammar for every tag string) + differential correspondence of the Fold mirror + Rules as oracle",
    "fold_agrees / fold_agrees_inputs: for EVERY type of the universe goodT (all scalar kinds, interface{}, slices, arrays incl. typed-array fast paths, pointers, "
